@@ -31,6 +31,9 @@ pub struct Case {
 }
 
 pub struct LifecycleEngine {
+    /// sanitizer builds: shorter histories, the reference VM runs on the same thread (thread creation with a large
+    /// stack is very slow under AddressSanitizer)
+    pub light: bool,
     /// "c17" or "c05"
     pub property: String,
 }
@@ -44,7 +47,33 @@ fn memory_program(rng: &mut Prng) -> (String, Module) {
     let mut m = Module::default();
     let mut main = vec![set("_", nil())];
     let name;
-    match rng.below(6) {
+    match rng.below(9) {
+        8 => {
+            name = "compare:tables";
+            // content comparison and hashing of tables, many times per run
+            let n = rng.range(500, 2500);
+            main.push(set("a", CardBody::Array(vec![int(1), int(2), strc("x")]).into()));
+            main.push(set("b", CardBody::Array(vec![int(1), int(2), strc("x")]).into()));
+            main.push(set("outer", CardBody::CreateTable.into()));
+            main.push(setprop(int(42), read("outer"), read("a")));
+            main.push(set("same", int(0)));
+            main.push(repeat(int(n), None, comp(vec![set("same", bin("add", read("same"), bin("eq", read("a"), read("b"))))])));
+            main.push(discard(native("log2", vec![read("same"), bin("getprop", read("outer"), read("b"))])));
+            main.push(setg("g_equal", bin("eq", read("a"), read("b"))));
+        }
+        6 | 7 => {
+            name = "churn:large-live";
+            // most of the limit is live (the limit is calibrated to live/0.6 in gen()); then a long stream of garbage:
+            // the collector has to run again and again although the survivors exceed half the limit
+            let k = rng.range(40, 1500);
+            let n = rng.range(1500, 3000);
+            main.push(set("t", CardBody::CreateTable.into()));
+            main.push(setg("g_live", read("t")));
+            main.push(repeat(int(k), Some("i"), comp(vec![bin("append", native("concat", vec![read("i"), strc("kept-kept-kept-kept-kept-kept-kept-kept")]), read("t"))])));
+            main.push(set("s", strc("seed")));
+            main.push(repeat(int(n), Some("i"), comp(vec![set("s", native("concat", vec![read("i"), strc("garbage-garbage-garbage-garbage-garbage-garbage-garbage-garbage-garbage")]))])));
+            main.push(discard(native("log1", vec![un("len", read("t"))])));
+        }
         0 => {
             name = "churn:strings";
             // bounded live data (one string), lots of garbage
@@ -260,8 +289,25 @@ impl Engine for LifecycleEngine {
                 _ => random_program(rng),
             });
         }
-        let memory_limit = *rng.pick(&[4096usize, 8192, 16384, 65536, 400 * 1024, 400 * 1024, 1 << 20]);
-        let mode = if rng.chance(1, 4) { "repeat" } else { "cleared" }.to_string();
+        let mut memory_limit = *rng.pick(&[4096usize, 8192, 16384, 65536, 400 * 1024, 400 * 1024, 1 << 20]);
+        let mut mode = if rng.chance(1, 4) { "repeat" } else { "cleared" }.to_string();
+        // calibrate the limit to the largest "large-live" program of the pool: live data = 60 % of the limit
+        let mut largest = 0usize;
+        for (n, m) in programs.iter() {
+            if n == "churn:large-live" {
+                if let Ok(p) = compile_module(m) {
+                    let cfg = VmConfig { max_instr: 400_000, suppress_gc: false, memory_limit: Some(256 << 20), stack_size: None };
+                    let mut vm = new_vm(&cfg, &inputs);
+                    let _ = vm.run(&p);
+                    vm.runtime_data.gc();
+                    largest = largest.max(vm.runtime_data.verif_allocator().allocated.load(std::sync::atomic::Ordering::Relaxed));
+                }
+            }
+        }
+        if largest > 0 {
+            memory_limit = largest * 5 / 3;
+            mode = "cleared".into();
+        }
         // without clear the globals of the previous run stay alive for a while: give repeat mode room,
         // so that OutOfMemory can only come from something that accumulates run after run
         let memory_limit = if mode == "repeat" { memory_limit.max(400 * 1024) } else { memory_limit };
@@ -278,6 +324,9 @@ impl Engine for LifecycleEngine {
                 let budget = *rng.pick(&[200_000u64, 200_000, 200_000, 50, 500, 5000]);
                 steps.push(Step { prog: rng.below(np), budget, clear_before: true });
             }
+        }
+        if self.light {
+            steps.truncate(40);
         }
         Case { programs, inputs, memory_limit, steps, mode }
     }
@@ -298,6 +347,7 @@ impl Engine for LifecycleEngine {
         }
         obs.inc(&format!("mode:{}", case.mode));
         let mut first_repeat: Option<VmOutcome> = None;
+        let mut first_runs: Vec<((usize, u64), VmOutcome)> = Vec::new();
         for (si, step) in case.steps.iter().enumerate() {
             let (pname, _) = &case.programs[step.prog];
             let program = &compiled[step.prog];
@@ -358,8 +408,39 @@ impl Engine for LifecycleEngine {
             }
             // ---- C17
             if case.mode == "cleared" {
-                let mut twin = new_vm(&cfg, &case.inputs);
-                let (t_out, t_alloc, t_disp) = run_once(&mut twin, program, step.budget);
+                // the same run repeated later in the history gives the same outcome
+                let key = (step.prog, step.budget);
+                match first_runs.iter().find(|(k, _)| *k == key) {
+                    None => first_runs.push((key, out.clone())),
+                    Some((_, first)) => {
+                        if let Some((what, d)) = outcomes_differ(&out, first) {
+                            return Verdict::violation(format!("{pid}:rerun-differs:{what}"), format!("step {si} ({pname}, budget {}): {d} (the first run of the same program with the same budget in this history is the reference)", step.budget));
+                        }
+                        obs.inc("reruns_compared");
+                    }
+                }
+                // the reference is a newly created VM on a newly created thread (nothing carried over, not even thread-local state)
+                let (t_out, t_alloc, t_disp) = if self.light {
+                    let mut twin = new_vm(&cfg, &case.inputs);
+                    run_once(&mut twin, program, step.budget)
+                } else {
+                    struct Shared(*const CaoCompiledProgram, *const VmConfig, *const Vec<DVal>);
+                    unsafe impl Send for Shared {}
+                    let sh = Shared(program as *const _, &cfg as *const _, &case.inputs as *const _);
+                    let budget = step.budget;
+                    let h = std::thread::Builder::new().stack_size(32 << 20).spawn(move || {
+                        let sh = sh;
+                        // the spawning thread waits in join() below: the referents outlive this thread and are not touched meanwhile
+                        let (program, cfg, inputs) = unsafe { (&*sh.0, &*sh.1, &*sh.2) };
+                        let mut twin = new_vm(cfg, inputs);
+                        run_once(&mut twin, program, budget)
+                    });
+                    match h.map(|h| h.join()) {
+                        Ok(Ok(r)) => r,
+                        _ => return Verdict::Inconclusive { reason: "the reference run on a fresh thread could not be completed".into() },
+                    }
+                };
+                obs.inc("fresh_thread_twins");
                 if let Some((what, d)) = outcomes_differ(&out, &t_out) {
                     return Verdict::violation(format!("{pid}:cleared-vm-differs:{what}"), format!("step {si} ({pname}, budget {}): on the cleared VM {d} (fresh VM is the reference)", step.budget));
                 }
